@@ -124,6 +124,8 @@ static std::vector<Scenario> scenarios(bool quick)
       }
     }
     v.push_back({ "cache-hit/" + c.name, c, { S_req(2), S_auto(RK_DATA), S_req(2) } });
+    // the same question in flight twice: both answers go to the cache under one key, then the question is asked again
+    v.push_back({ "same-question-twice-then-again/" + c.name, c, { S_req(2), S_req(2), S_auto(RK_DATA), S_req(2) } });
     v.push_back({ "tc-upgrade/" + c.name, c, { S_req(2), S_auto(RK_TC), S_auto(RK_DATA) } });
     v.push_back({ "servfail-failover/" + c.name, c, { S_req(2), S_auto(RK_SERVFAIL) } });
     v.push_back({ "set-servers/" + c.name, c, { S_req(2), S_ev(mk(EV_SETSERVERS, 2)), S_auto(RK_DATA) } });
